@@ -509,13 +509,20 @@ SeqShapes(d) == IF d = 1 THEN {<<3>>, <<1>>, <<2>>}
                 ELSE IF d = 2 THEN {<<2, 3>>, <<1, 3>>, <<3, 1>>, <<1, 1>>}
                 ELSE IF d = 3 THEN {<<2, 1, 3>>, <<1, 2, 1>>, <<3, 2, 2>>}
                 ELSE {<<2, 1, 2, 3>>, <<1, 1, 2, 1>>}
-InitShapes(d) == IF Alpha = "seed" THEN Shapes0(d) ELSE SeqShapes(d)
+\* simulation: all shapes with extents 1..3 up to order 3; order 4: extents 1..2 and a few shapes with a 3
+SimShapes(d) == IF d <= 3 THEN Shapes0(d)
+                ELSE {s \in Shapes0(4) : \A k \in 1..4 : s[k] <= 2} \cup
+                     {<<3, 1, 2, 1>>, <<1, 3, 1, 2>>, <<2, 1, 3, 1>>, <<1, 2, 1, 3>>, <<3, 1, 1, 3>>, <<1, 3, 3, 1>>,
+                      <<2, 2, 1, 3>>, <<3, 2, 1, 2>>}
+SimMult(d) == IF d = 1 THEN 9 ELSE IF d = 2 THEN 3 ELSE 1     \* keeps the orders balanced among the initial states
+InitShapes(d) == IF Alpha = "seed" THEN SimShapes(d) ELSE SeqShapes(d)
 
 InitRec(r, v) == [a |-> "Init", rep |-> r, kind |-> r.k, sh |-> v.sh, e |-> v.e, n2 |-> NormSq(v), exact |-> TRUE]
 OpInitRec(r, v) == [a |-> "Init", rep |-> r, kind |-> "op", sh |-> v.sh, e |-> v.e, n2 |-> 0, exact |-> TRUE,
                     out |-> v.out, inn |-> v.inn]
 InitT ==
-  \E d \in Orders : \E sh \in InitShapes(d) : \E kd \in Kinds : \E q \in 1..NInit :
+  \E d \in Orders : \E sh \in InitShapes(d) : \E kd \in Kinds :
+  \E q \in 1..(IF Alpha = "seed" THEN NInit * SimMult(d) ELSE NInit) :
     LET r == GenRep(kd, sh, Hash(Salt * 7 + q, 3 + Len(sh) + 11 * SSum(sh)))
         v == Dense(r)
     IN /\ rep = r /\ val = v /\ exact = TRUE /\ hist = <<InitRec(r, v)>>
